@@ -5,6 +5,24 @@ props = [json.loads(l) for l in open(os.path.join(VERIF, "properties.jsonl"))]
 
 # id -> (technique, level text, level note, design ref); absent = not yet claimed
 CLAIMED = {
+    "C02": ("Lean 4 theorem: writer model = independent declarative statement of the wire format (both directions) + real writer bytes compared with the spec evaluated in Lean",
+            "Kio.C02.impl_eq_spec_ok / spec_eq_impl_ok / shipped: for every coherent class and well-typed canonical instance the encoder emits exactly Spec.enc (independent of the dispatch tables/plans/staging), and raises only where there is no encoding; unconditional on the 1629 regenerated classes (side conditions kernel-checked). On the code: entity_writer bytes vs Spec.enc for real instances, plus hand-assembled vectors.",
+            "Lean kernel; same axioms; Spec.enc written by me from the protocol guide; general theorem has two side conditions (no tagged nullable entity array, < 2^35 fields) that hold for every shipped class.", "§6.2"),
+    "C05": ("Lean 4 corollary of C01+C02 (canonical encodings) + wire-first differential run",
+            "Kio.C05.lossless / decoded_is_wire / idempotent_canonical: for every canonical encoding Spec.enc s w over the full wire domain, decode yields w, consumes exactly the encoding, re-encoding gives the same bytes, and decode∘encode is idempotent. On the code: canonical encodings produced by the Lean spec (ms timestamps, >2^53 ms durations, -0.0, NaN payloads) are decoded and re-encoded by the real code.",
+            "Lean kernel; same axioms; 'anything the decoder returns re-encodes' is proved only for canonical inputs, checked on the code for arbitrary accepted inputs (C10 harness).", "§6.5"),
+    "C06": ("Lean 4 theorem by structural induction (prefix ⇒ underflow through every combinator) + every cut position on real encodings",
+            "Kio.C06.prefix_underflow: for every coherent class, well-typed canonical instance and cut k < len, dec (take k) = error underflow. On the code: every cut of generated encodings must raise BufferUnderflow; a third of the cuts are also compared with the model.",
+            "Lean kernel; same axioms; that a real source returns short data rather than blocking is the read(n) contract of the source, outside kio.", "§6.6"),
+    "C07": ("Lean 4 theorem by induction on the message list from C01's suffix form + instrumented sinks/sources on the real code",
+            "Kio.C07.stream / header_payload: any sequence of messages back to back, with arbitrary trailing bytes, decodes in sequence. The model has no sink/source state; on the code the same sequences are written to BytesIO, a write-only sink and an asyncio.StreamWriter (bytes must coincide, only write() may be called) and read from a read-only source (only read(n≥0)).",
+            "Lean kernel; same axioms; sink/source independence is a statement about CPython objects: exercised, not proved.", "§6.7"),
+    "C17": ("Lean 4 theorems: writer model = independent v2 layout of correctly derived parameters; independent decoder inverts it; CRC covers offset 21..end + differential run",
+            "Kio.C17.layout / complete / independent_decode / crc_covers / spec_roundtrip for every non-empty record list with ms timestamps; CRC-32C modelled bitwise over BitVec 32 (check value proved). On the code: write_batch vs Spec.batchBytes(derive) and Spec.decBatch on generated batches.",
+            "Lean kernel; same axioms; crc32c C extension assumed = bitwise model (compared on every batch); float ms conversion exact by ms_exact.", "§6.17"),
+    "C18": ("Lean 4 theorems: faithful read (partial: whole-second timestamps), magic, any single-byte corruption from the CRC field on ⇒ error (CRC-32C linearity/injectivity), every truncation ⇒ error + all bit flips / all cuts / CRC-colliding truncation on the real reader",
+            "Kio.C18.read_spec_partial / magic / byte_corruption / truncation / crc_byte_change; the full-strength timestamp claim is false of the code (timestamp_ms_lost_witness) and is the listed known finding C18/I. On the code: reference encodings + 4 real-broker fixtures × identity, wrong magic, every bit flip from byte 17, every cut, forged CRC-colliding truncation.",
+            "Lean kernel; same axioms; known finding C18/I (milliseconds of record timestamps dropped; pinned by the existing tests).", "§6.18"),
     "C01": ("Lean 4 theorem by mutual structural induction over the schema type + kernel-checked instance on the regenerated class table + differential correspondence",
             "Kio.C01.roundtrip: for every coherent schema, every well-typed canonical value and every suffix, dec (enc v ++ rest) = (v, rest); Kio.C01.shipped_coherent: all 1629 regenerated classes are coherent (decide +kernel). The model's enc/dec are tied to entity_writer/entity_reader by a differential run (real instances, three tails) on a seed-rotated subset of classes (all classes in thorough).",
             "Lean kernel; axioms ⊆ {propext, Classical.choice, Quot.sound}; translator + correspondence harness; CPython float ops = fl53/pyRound model; restriction TaggedCanon (a tagged value == its default is the default itself).", "§6.1"),
